@@ -625,8 +625,7 @@ class StructNorm(ast.NodeTransformer):
 
     def run(self):
         import struct as _st
-        if self.structs:
-            self.visit(self.tree)
+        self.visit(self.tree)
         self.split(self.tree)
         if self.count:
             ast.fix_missing_locations(self.tree)
@@ -650,10 +649,26 @@ class StructNorm(ast.NodeTransformer):
         self.generic_visit(n)
         if not isinstance(n.func, ast.Attribute):
             return n
+        import struct as _st
+        if ast.unparse(n.func) == "struct.unpack_from" and not n.keywords and len(n.args) in (2, 3) \
+                and isinstance(n.args[0], ast.Constant) and isinstance(n.args[0].value, str):
+            # struct.unpack_from(F, b[, off])  ->  struct.unpack(F, b[off:off + calcsize(F)])
+            try:
+                size = _st.calcsize(n.args[0].value)
+            except _st.error:
+                return n
+            off = n.args[2] if len(n.args) == 3 else ast.Constant(value=0)
+            if isinstance(off, ast.Constant) and isinstance(off.value, int):
+                lo, hi = ast.Constant(value=off.value), ast.Constant(value=off.value + size)
+            else:
+                lo, hi = off, ast.BinOp(left=_clone(off), op=ast.Add(), right=ast.Constant(value=size))
+            self.count += 1
+            sl = ast.Subscript(value=n.args[1], slice=ast.Slice(lower=lo, upper=hi), ctx=ast.Load())
+            fn_ = ast.Attribute(value=ast.Name(id="struct", ctx=ast.Load()), attr="unpack", ctx=ast.Load())
+            return ast.copy_location(ast.Call(func=fn_, args=[n.args[0], sl], keywords=[]), n)
         f = self._fmt(n.func.value)
         if f is None or n.keywords:
             return n
-        import struct as _st
         S = ast.Attribute(value=ast.Name(id="struct", ctx=ast.Load()), attr=None, ctx=ast.Load())
         if n.func.attr == "pack":
             self.count += 1
@@ -714,22 +729,35 @@ class StructNorm(ast.NodeTransformer):
             order, codes = fmt[0], fmt[1:]
             src = st.value.args[1]
             tg = st.targets[0].elts
-            if len(codes) == len(tg) >= 2 and all(c in "bBhHiIlLqQ" for c in codes) and all(isinstance(t, ast.Name) for t in tg) \
-                    and isinstance(src, ast.Subscript) and isinstance(src.slice, ast.Slice) \
-                    and (src.slice.lower is None or (isinstance(src.slice.lower, ast.Constant) and isinstance(src.slice.lower.value, int))):
-                lo = 0 if src.slice.lower is None else src.slice.lower.value
+            def plain_target(t):
+                return isinstance(t, ast.Name) or (isinstance(t, ast.Attribute) and isinstance(t.value, ast.Name))
+            lower = src.slice.lower if isinstance(src, ast.Subscript) and isinstance(src.slice, ast.Slice) else None
+            const_lo = lower is None or (isinstance(lower, ast.Constant) and isinstance(lower.value, int))
+            # a symbolic start (`hdr[self.CHDR_LEN:...]`) is fine as long as no target can change it
+            sym_ok = lower is not None and not const_lo and all(isinstance(x, (ast.Name, ast.Attribute, ast.Constant, ast.Load)) for x in ast.walk(lower)) \
+                and not any(ast.unparse(t) == ast.unparse(lower) for t in tg)
+            if len(codes) == len(tg) >= 2 and all(c in "bBhHiIlLqQ" for c in codes) and all(plain_target(t) for t in tg) \
+                    and isinstance(src, ast.Subscript) and isinstance(src.slice, ast.Slice) and (const_lo or sym_ok) \
+                    and len({ast.unparse(t) for t in tg}) == len(tg):
+                base = 0 if lower is None else lower.value if const_lo else None
+
+                def at(k):
+                    if base is not None:
+                        return ast.Constant(value=base + k)
+                    return _clone(lower) if k == 0 else ast.BinOp(left=_clone(lower), op=ast.Add(), right=ast.Constant(value=k))
+                lo = 0
                 out = []
                 for t, c in zip(tg, codes):
                     sz = _st.calcsize(order + c)
                     if c == "B":
-                        val = ast.Subscript(value=_clone(src.value), slice=ast.Constant(value=lo), ctx=ast.Load())
+                        val = ast.Subscript(value=_clone(src.value), slice=at(lo), ctx=ast.Load())
                     else:
-                        sl = ast.Subscript(value=_clone(src.value), slice=ast.Slice(lower=ast.Constant(value=lo),
-                                                                                  upper=ast.Constant(value=lo + sz)), ctx=ast.Load())
+                        sl = ast.Subscript(value=_clone(src.value), slice=ast.Slice(lower=at(lo), upper=at(lo + sz)), ctx=ast.Load())
                         call = ast.Call(func=ast.Attribute(value=ast.Name(id="struct", ctx=ast.Load()), attr="unpack", ctx=ast.Load()),
                                         args=[ast.Constant(value=order + c), sl], keywords=[])
                         val = ast.Subscript(value=call, slice=ast.Constant(value=0), ctx=ast.Load())
-                    out.append(ast.copy_location(ast.Assign(targets=[ast.Name(id=t.id, ctx=ast.Store())], value=val), st))
+                    tt = _clone(t)
+                    out.append(ast.copy_location(ast.Assign(targets=[tt], value=val), st))
                     lo += sz
                 self.count += 1
                 return out
@@ -826,6 +854,7 @@ class Evolve:
 
     def run(self):
         self.super_calls()
+        self.container_delegation()
         self.gen_loops()
         if self.base_fn is not None:
             self.new_constants()
@@ -835,6 +864,101 @@ class Evolve:
         if self.count:
             ast.fix_missing_locations(self.tree)
         return self.count
+
+    # -- containers that delegate iteration / membership to a list attribute
+    def container_delegation(self):
+        """A class that (since the pinned commit) defines `__iter__` as `return iter(self.A)` and / or `__contains__` as
+        `return x in self.A` is iterated / searched through that attribute: `for v in E`, `*E`, `x in E` are rewritten to
+        `E.A` where E is known to be such an object - `self` inside the class or a subclass, or an attribute whose every
+        store in the toolkit is a constructor call of such a class."""
+        if not self.path:
+            return
+        trees = [(self.modname, self.tree)]
+        d = os.path.dirname(self.path)
+        for t_ in _sibling_trees(self.path):
+            trees.append((None, t_))
+        names = []
+        try:
+            names = sorted(f[:-3] for f in os.listdir(d) if f.endswith(".py") and not f.startswith("test_") and f[:-3] != self.modname)
+        except OSError:
+            pass
+        sib_names = dict(zip([id(t_) for _m, t_ in trees[1:]], names))
+        deleg = {}        # class name -> {"iter": attr, "contains": attr}
+        bases = {}
+        for mn, t_ in trees:
+            mod_base = baseline().get(mn if mn else sib_names.get(id(t_), ""), None)
+            for cls in [x for x in t_.body if isinstance(x, ast.ClassDef)]:
+                bases[cls.name] = [b.id for b in cls.bases if isinstance(b, ast.Name)]
+                for m in [x for x in cls.body if isinstance(x, ast.FunctionDef)]:
+                    if mod_base is not None and m.name in mod_base:
+                        continue
+                    body = _body(m)
+                    if len(body) != 1 or not isinstance(body[0], ast.Return) or body[0].value is None:
+                        continue
+                    v = body[0].value
+                    if m.name == "__iter__" and isinstance(v, ast.Call) and isinstance(v.func, ast.Name) and v.func.id == "iter" \
+                            and len(v.args) == 1 and isinstance(v.args[0], ast.Attribute) and isinstance(v.args[0].value, ast.Name) \
+                            and v.args[0].value.id == "self":
+                        deleg.setdefault(cls.name, {})["iter"] = v.args[0].attr
+                    if m.name == "__contains__" and len(m.args.args) == 2 and isinstance(v, ast.Compare) and len(v.ops) == 1 \
+                            and isinstance(v.ops[0], ast.In) and isinstance(v.left, ast.Name) and v.left.id == m.args.args[1].arg \
+                            and isinstance(v.comparators[0], ast.Attribute) and isinstance(v.comparators[0].value, ast.Name) \
+                            and v.comparators[0].value.id == "self":
+                        deleg.setdefault(cls.name, {})["contains"] = v.comparators[0].attr
+        if not deleg:
+            return
+
+        def family(cn, seen=()):
+            if cn in deleg:
+                return deleg[cn]
+            for b in bases.get(cn, []):
+                if b not in seen:
+                    r = family(b, seen + (cn,))
+                    if r:
+                        return r
+            return None
+        # attributes that always hold such an object
+        attr_cls = {}
+        for _mn, t_ in trees:
+            for n in ast.walk(t_):
+                if isinstance(n, ast.Assign):
+                    for tg in n.targets:
+                        if isinstance(tg, ast.Attribute):
+                            cn = n.value.func.id if isinstance(n.value, ast.Call) and isinstance(n.value.func, ast.Name) else None
+                            fam = family(cn) if cn else None
+                            prev = attr_cls.get(tg.attr, "unset")
+                            attr_cls[tg.attr] = fam if (fam and prev in ("unset", fam)) else None
+                elif isinstance(n, (ast.AugAssign, ast.AnnAssign)) and isinstance(n.target, ast.Attribute):
+                    attr_cls[n.target.attr] = None
+        me = self
+
+        def deleg_of(e, cls_name):
+            if isinstance(e, ast.Name) and e.id == "self" and cls_name:
+                return family(cls_name)
+            if isinstance(e, ast.Attribute) and attr_cls.get(e.attr):
+                return attr_cls[e.attr]
+            return None
+
+        def wrap(e, attr):
+            me.count += 1
+            return ast.copy_location(ast.Attribute(value=e, attr=attr, ctx=ast.Load()), e)
+        for cls in [x for x in ast.walk(self.tree) if isinstance(x, ast.ClassDef)]:
+            for m in [x for x in cls.body if isinstance(x, ast.FunctionDef)]:
+                if m.name in ("__iter__", "__contains__"):
+                    continue
+                for n in ast.walk(m):
+                    if isinstance(n, (ast.For, ast.comprehension)):
+                        dg = deleg_of(n.iter, cls.name)
+                        if dg and "iter" in dg:
+                            n.iter = wrap(n.iter, dg["iter"])
+                    elif isinstance(n, ast.Starred) and isinstance(n.ctx, ast.Load):
+                        dg = deleg_of(n.value, cls.name)
+                        if dg and "iter" in dg:
+                            n.value = wrap(n.value, dg["iter"])
+                    elif isinstance(n, ast.Compare) and len(n.ops) == 1 and isinstance(n.ops[0], (ast.In, ast.NotIn)):
+                        dg = deleg_of(n.comparators[0], cls.name)
+                        if dg and "contains" in dg:
+                            n.comparators[0] = wrap(n.comparators[0], dg["contains"])
 
     # -- super()
     def super_calls(self):
